@@ -543,3 +543,138 @@ func liftTri(c *Ctx, fn *ssa.Function, HP *Prover, I, J Poly) bool {
 	}
 	return n > 0
 }
+
+// ruleEdgeByte: DenseGraph documents "an indicator of an edge being present": NewDense accepts
+// any non-zero byte as an edge and every observer tests `> 0`. A byte read from the adjacency
+// storage of an existing graph may therefore only be tested against zero (or moved by a bulk
+// copy); using its numeric value (adding it to a count, xor, packing it into bits) silently
+// assumes it is 0 or 1.
+func ruleEdgeByte(c *Ctx, pkgRel string) *RuleResult {
+	r := &RuleResult{Rule: "EDGEBYTE", Doc: "a byte read from the adjacency storage of an existing DenseGraph is only ever compared with zero; its numeric value is never used (NewDense accepts any non-zero byte as an edge)", MinInst: 5}
+	gp := c.ByPath[c.Mod+"/graph"]
+	denseT := gp.Types.Scope().Lookup("DenseGraph").Type()
+	E := c.Eff()
+	zeroTest := func(bo *ssa.BinOp, v ssa.Value) bool {
+		var k int64
+		var ok bool
+		left := bo.X == v
+		if left {
+			k, ok = constInt(bo.Y)
+		} else {
+			k, ok = constInt(bo.X)
+		}
+		if !ok {
+			return false
+		}
+		op := bo.Op
+		if !left { // const op v  ==  v op' const
+			switch op {
+			case token.LSS:
+				op = token.GTR
+			case token.GTR:
+				op = token.LSS
+			case token.LEQ:
+				op = token.GEQ
+			case token.GEQ:
+				op = token.LEQ
+			}
+		}
+		switch op {
+		case token.GTR, token.NEQ, token.EQL, token.LEQ:
+			return k == 0
+		case token.GEQ, token.LSS:
+			return k == 1
+		}
+		return false
+	}
+	for _, fn := range c.Funcs {
+		p := fnPkg(fn)
+		if p == nil || p.Pkg.Path() != c.Mod+"/"+pkgRel || fn.Synthetic != "" {
+			continue
+		}
+		f := E.fas[fn]
+		for _, b := range fn.Blocks {
+			for _, in := range b.Instrs {
+				ld, ok := isLoad(in)
+				if !ok || !isByte(ld.Type()) {
+					continue
+				}
+				ia, ok := ld.X.(*ssa.IndexAddr)
+				if !ok {
+					continue
+				}
+				// adjacency storage of a graph that exists outside this function: <G>.Edges[...] where G is
+				// a (pointer to a) DenseGraph reached from a parameter (possibly through a type assertion)
+				input := false
+				var holder ssa.Value
+				base := ia.X
+				if sl, ok := base.(*ssa.Slice); ok {
+					base = sl.X
+				}
+				switch x := base.(type) {
+				case *ssa.UnOp:
+					if fa, ok := x.X.(*ssa.FieldAddr); ok && x.Op == token.MUL {
+						st := fa.X.Type().Underlying().(*types.Pointer).Elem()
+						if types.Identical(st, denseT) && st.Underlying().(*types.Struct).Field(fa.Field).Name() == "Edges" {
+							holder = fa.X
+						}
+					}
+				case *ssa.Field:
+					if types.Identical(x.X.Type(), denseT) && x.X.Type().Underlying().(*types.Struct).Field(x.Field).Name() == "Edges" {
+						holder = x.X
+					}
+				}
+				// (through a chain of reslices the static shape is lost: fall back to the abstract object)
+				for l := range f.P(ia.X) {
+					o := l.o
+					if o.root >= 0 && o.root < rGlobal && o.parent != nil && o.slot == "Edges" && l.p == "" {
+						input = true
+					}
+				}
+				if holder != nil {
+					for l := range f.P(holder) {
+						if l.o.root >= 0 && l.o.root < rGlobal {
+							input = true
+						}
+					}
+					// a value receiver spilled to a local: t0 = local DenseGraph (g); *t0 = g
+					if al, ok := holder.(*ssa.Alloc); ok {
+						for _, ref := range *al.Referrers() {
+							if st, ok := ref.(*ssa.Store); ok && st.Addr == ssa.Value(al) {
+								if _, isParam := st.Val.(*ssa.Parameter); isParam {
+									input = true
+								}
+							}
+						}
+					}
+					if _, isParam := holder.(*ssa.Parameter); isParam {
+						input = true
+					}
+				}
+				if !input {
+					continue
+				}
+				name := c.short(fn)
+				src := c.srcAt(ia.Pos())
+				r.inst("%s: reads %s", name, src)
+				bad := ""
+				for _, ref := range *ld.Referrers() {
+					switch x := ref.(type) {
+					case *ssa.DebugRef:
+					case *ssa.BinOp:
+						if !zeroTest(x, ld) {
+							bad = "used in " + x.Op.String()
+						}
+					default:
+						bad = "used by " + strings.SplitN(ref.String(), " ", 2)[0]
+					}
+				}
+				r.oblig(bad == "")
+				if bad != "" {
+					r.find(name+":"+src+" numeric use", c.instrPos(ld), "%s uses the numeric value of the adjacency byte %s (%s): any non-zero byte is an edge (NewDense copies the caller's bytes verbatim), so this is only right for graphs whose bytes happen to be 0 or 1", name, src, bad)
+				}
+			}
+		}
+	}
+	return r
+}
